@@ -65,3 +65,30 @@ package deb
 //
 //@ inline func withChangelogIfRequested(info *nfpm.Info) (result *nfpm.Info)
 //@   assume [C11 C12] appended-entry-lands-outside-every-view: len(info.Contents) == cap(info.Contents)
+//
+//@ spec func debSigType(t string) string {
+//@     if t == "" { return "origin" }
+//@     return t
+//@ }
+//
+//@ spec func validSigType(t string) bool { return t == "origin" || t == "maint" || t == "archive" }
+//
+//@ func debSign(info *nfpm.Info, debianBinary, controlTarGz, dataTarball []byte) (sig []byte, sigType string, err error)
+//@   requires info != nil
+//@   requires !flag("failed")
+//@   ensures [C10] signs-exactly-the-three-members: implies(err == nil, globStr("signedBytes") == string(debianBinary)+string(controlTarGz)+string(dataTarball))
+//@   ensures [C10] signature-type: sigType == debSigType(old(info.Deb.Signature.Type))
+//@   ensures [C10] valid-type-on-success: implies(err == nil, validSigType(sigType))
+//@   ensures [C10] invalid-type-is-a-signing-failure: implies(!validSigType(debSigType(old(info.Deb.Signature.Type))), err != nil && errAsSigningFailure(err))
+//@   ensures [C10 C06] signer-failure-is-reported: implies(flag("failed"), err != nil)
+//@   ensures [C10] signer-failure-is-typed: implies(flag("failed"), errAsSigningFailure(err))
+//@   ensures [C10] signer-error-is-wrapped: implies(flag("failed") && !isNilFunc(old(info.Deb.Signature.SignFn)), errIs(err, globErr("signerErr")))
+//@   modifies [C11 C12] flag("failed"), flag("signed"), flag("signerCalled"), glob("signedBytes"), glob("signerErr")
+//
+//@ func dpkgSign(info *nfpm.Info, debianBinary, controlTarGz, dataTarball []byte) (sig []byte, sigType string, err error)
+//@   requires info != nil
+//@   requires !flag("failed")
+//@   ensures [C10 C06] signer-failure-is-reported: implies(flag("failed"), err != nil)
+//@   ensures [C10] signer-failure-is-typed: implies(flag("failed"), errAsSigningFailure(err))
+//@   ensures [C10] signer-error-is-wrapped: implies(flag("failed") && !isNilFunc(old(info.Deb.Signature.SignFn)), errIs(err, globErr("signerErr")))
+//@   modifies [C11 C12] flag("failed"), flag("signed"), flag("signerCalled"), flag("clockRead"), glob("signedBytes"), glob("signerErr")
